@@ -112,15 +112,23 @@ def check_naming_functions(sm: SourceModel, res):
     if f is None:
         raise AnalysisError("anchor util.core.convert_to_xsd_class_name vanished")
     src = unparse(f.node)
-    need = ["name.split(':')[1]", "cap_first(name)", "''.join([cap_first(partial) for partial in name.split('-')])",
-            "'XSDSimpleType' + name", "'XSDComplexType' + name", "'XSDGroup' + name"]
-    missing = [n for n in need if n not in src]
+    import re as _re
+    p0 = f.params[0]
+    need = {
+        'xs: prefix stripped': _re.escape(p0) + r"\.split\(':'\)\[1\]",
+        'first letter capitalised': r"cap_first\(" + _re.escape(p0) + r"\)",
+        'CamelCase of hyphen parts': r"''\.join\(\[cap_first\((\w+)\) for \1 in " + _re.escape(p0) + r"\.split\('-'\)\]\)",
+        'simple prefix': r"'XSDSimpleType' \+ " + _re.escape(p0),
+        'complex prefix': r"'XSDComplexType' \+ " + _re.escape(p0),
+        'group prefix': r"'XSDGroup' \+ " + _re.escape(p0),
+    }
+    missing = [k for k, rx in need.items() if _re.search(rx, src) is None]
     if missing:
         raise AnalysisError(f"util.core.convert_to_xsd_class_name no longer contains the expected steps {missing}")
     # the prefix must be selected by the matching type_ literal
     pairs = {}
     for n in ast.walk(f.node):
-        if isinstance(n, ast.If) and isinstance(n.test, ast.Compare) and unparse(n.test.left) == 'type_' \
+        if isinstance(n, ast.If) and isinstance(n.test, ast.Compare) and unparse(n.test.left) == (f.params[1] if len(f.params) > 1 else 'type_') \
                 and isinstance(n.test.ops[0], ast.Eq):
             lit = const_value(n.test.comparators[0])
             for st in n.body:
